@@ -359,6 +359,14 @@ fn get_min_fold_count_limit(carrier: &mut QueryCarrier, fold: &IRFold) -> Option
     result
 }
 
+/// Whether this component, or any fold nested within it, produces any outputs.
+fn component_has_outputs(component: &IRQueryComponent) -> bool {
+    !component.outputs.is_empty()
+        || component.folds.values().any(|fold| {
+            !fold.fold_specific_outputs.is_empty() || component_has_outputs(&fold.component)
+        })
+}
+
 fn collect_fold_elements<'query, Vertex: Clone + Debug + 'query>(
     mut iterator: ContextIterator<'query, Vertex>,
     max_fold_count_limit: &Option<usize>,
@@ -505,21 +513,31 @@ fn compute_fold<'query, AdapterT: Adapter<'query> + 'query>(
     // of the fold, we can stop computing the rest of the fold after seeing we have 11 elements.
     let min_fold_size =
         if let Some(min_fold_size) = get_min_fold_count_limit(carrier, fold.as_ref()) {
-            let no_outputs_in_fold = fold.component.outputs.is_empty();
+            // Outputs may also be located in folds nested inside this fold.
+            let no_outputs_in_fold = !component_has_outputs(&fold.component);
             let has_output_on_fold_count =
                 fold.fold_specific_outputs.values().any(|x| *x == FoldSpecificFieldKind::Count);
+            let is_tag_on_this_fold_count = |field_ref: &FieldRef| {
+                let FieldRef::FoldSpecificField(tagged_fold_count) = field_ref else {
+                    return false;
+                };
+
+                tagged_fold_count.fold_root_vid == fold.to_vid
+                    && tagged_fold_count.fold_eid == fold.eid
+                    && tagged_fold_count.kind == FoldSpecificFieldKind::Count
+            };
+            // The tagged fold count may be used in a filter in the parent component,
+            // in the post-fold filters of another fold in the parent component,
+            // or may be imported into another fold for use somewhere inside it.
             let has_tag_on_fold_count = parent_component.vertices.values().any(|vertex| {
                 vertex.filters.iter().any(|filter| {
-                    let Some(Argument::Tag(FieldRef::FoldSpecificField(tagged_fold_count))) =
-                        filter.right()
-                    else {
-                        return false;
-                    };
-
-                    tagged_fold_count.fold_root_vid == fold.to_vid
-                        && tagged_fold_count.fold_eid == fold.eid
-                        && tagged_fold_count.kind == FoldSpecificFieldKind::Count
+                    matches!(filter.right(), Some(Argument::Tag(t)) if is_tag_on_this_fold_count(t))
                 })
+            }) || parent_component.folds.values().any(|other_fold| {
+                other_fold.imported_tags.iter().any(is_tag_on_this_fold_count)
+                    || other_fold.post_filters.iter().any(|filter| {
+                        matches!(filter.right(), Some(Argument::Tag(t)) if is_tag_on_this_fold_count(t))
+                    })
             });
 
             if no_outputs_in_fold && !has_output_on_fold_count && !has_tag_on_fold_count {
